@@ -75,6 +75,8 @@ def main():
         ids += [('b', s) for s in sorted(os.listdir(os.path.join(ROOT, 'benign')))]
     if a.only:
         ids = [x for x in ids if x[1] in a.only]
+    if a.props and not a.only:
+        ids = [x for x in ids if x[0] == 'b' or x[1][:3] in a.props]
     with ThreadPoolExecutor(a.j) as ex:
         dirs = list(ex.map(lambda x: materialise(x[0], x[1], h), ids))
     for (kind, sid), d in zip(ids, dirs):
@@ -85,6 +87,17 @@ def main():
     for kind, sid, prop, rc, finds in res:
         by.setdefault((kind, sid), {})[prop] = (rc, finds)
     bad = 0
+    # compare with the last recorded results: report every (id, property) whose exit status changed
+    basef = os.path.join(PT, 'last.json')
+    base = json.load(open(basef)) if os.path.exists(basef) else {}
+    for (kind, sid), r in sorted(by.items()):
+        for p, (rc, f) in sorted(r.items()):
+            old = base.get(kind + sid, {}).get(p)
+            if old is not None and old != rc:
+                print('CHANGED %s %s %s: %s -> %s %s' % ('seed' if kind == 's' else 'benign', sid, p, old, rc, (f[:1] or [''])[0][:150]))
+    for (kind, sid), r in by.items():
+        base.setdefault(kind + sid, {}).update({p: v[0] for p, v in r.items()})
+    json.dump(base, open(basef, 'w'))
     for (kind, sid), r in sorted(by.items()):
         if kind == 's':
             own = sid[:3]
